@@ -19,6 +19,9 @@ const DICT: &[&str] = &[
     "async ", "not ", "and ", "or ", "is ", "del ", "global ", "nonlocal ", "assert ", "raise ", "pass", "break",
     "None", "True", "False", "_", "x", "\u{e9}", "\u{3042}", "\u{1d11e}", "\u{1f600}", "\u{301}", "\u{feff}", "\u{a0}",
     "\u{2028}", "\u{85}", "\u{0}", "\u{7f}", "$", "?", "`", "!", "\u{b5}", "\u{212b}",
+    // characters that are numeric / digits / letters only in the Unicode sense, glued to ASCII digits and names
+    "1\u{663}", "2\u{b2}", "0\u{bd}", "10_\u{967}", "7\u{663}j", "1\u{1d7d9}", "0x\u{ff11}", "1e\u{661}", "1.\u{662}", "x\u{b2}", "\u{2167}", "\u{ff10}", "\u{1d7ce}",
+    "\u{2160}x", "1\u{3007}", "0b\u{661}", "0o\u{667}", "\u{30}\u{fe0f}\u{20e3}",
 ];
 
 fn parse_seeds(payload: &[u8]) -> Vec<Vec<char>> {
